@@ -83,19 +83,19 @@ pub fn run(tier: Tier, seed: u64) -> i32 {
             }
             let circ = fixed_circ(n, ands);
             let cp = CaseParams { circ: CircParams::default(), all_scheds: true, caps: vec![1, 1, 2, 0], tmp: false };
-            let cases = tier.pick(if n == 4 { 50 } else { 90 }, if n == 4 { 800 } else { 1500 });
+            let cases = tier.pick(if n == 4 { 50 } else { 90 }, if n == 4 { 2500 } else { 5000 });
             prop_search(&ctx, &format!("fixed-{n}-{ands}"), cases, || gen_case_for(circ.clone(), cp.clone()), |c| test_case(c, Some(&seen)));
         }
     }
     // (b) generated circuits
     if !ctx.stopped() {
         let cp = CaseParams { circ: CircParams { n_min: 2, n_max: 4, max_gates: 25, ..Default::default() }, all_scheds: true, caps: vec![1, 2, 0], tmp: false };
-        prop_search(&ctx, "generated", tier.pick(100, 2000), || crate::gens::gen_case(cp.clone()), |c| test_case(c, Some(&seen)));
+        prop_search(&ctx, "generated", tier.pick(100, 8000), || crate::gens::gen_case(cp.clone()), |c| test_case(c, Some(&seen)));
     }
     // (c) chunk streaming
     if !ctx.stopped() {
         let cp = CaseParams { circ: CircParams { n_min: 2, n_max: 3, max_gates: 5, bulk: vec![1001, 2003], bulk_prob: 255, ..Default::default() }, all_scheds: true, caps: vec![1, 1, 2], tmp: false };
-        prop_search(&ctx, "chunked", tier.pick(24, 300), || crate::gens::gen_case(cp.clone()), |c| test_case(c, Some(&seen)));
+        prop_search(&ctx, "chunked", tier.pick(24, 900), || crate::gens::gen_case(cp.clone()), |c| test_case(c, Some(&seen)));
     }
     // (d) messages larger than 64 KiB and wide outputs under 1-slot links
     if !ctx.stopped() {
